@@ -239,7 +239,10 @@ func init() {
 				"the native reference (validated on KATs and all five real proofs) is the judge for circuit-description changes only",
 			},
 			MinEvents: 100000,
-			Setup:     func(ctx *fw.Ctx) error { return refSelfTest(true) },
+			Setup: func(ctx *fw.Ctx) error {
+				engine.SetRealHints(false) // large must-reject sweep: native fast path for honest hints
+				return refSelfTest(true)
+			},
 			Gen: func(ctx *fw.Ctx) []fw.Case {
 				var cs []fw.Case
 				for _, name := range instNames(ctx.Quick) {
